@@ -173,6 +173,51 @@ def run_nomail(ctx):
     vlib.handle_results(ctx, 'ehlo-reply', 'EHLO reply built from control/databytes through the whole server', [], fails)
 
 
+def run_spfreply(ctx):
+    """text from DNS inside a reply: the invalid SPF term that cb_spf() quotes when the record is a permanent error and
+    the recipient's spfpolicy makes that a rejection (seeded change c10-m9 folded the recorded term with LF TAB for the
+    Received-SPF header; the same string goes into this reply)"""
+    b = session.build_qsmtpd(ctx)
+    if not b:
+        return
+    rng, scs, meta, fails = ctx.rng, [], [], []
+    lens = [5, 60, 399, 400, 401, 402, 450, 799, 800, 801, 1000, 1203] if ctx.quick() else [5, 60] + list(range(395, 410)) + list(range(795, 806)) + [1000, 1203, 1999]
+    for L in lens:
+        for kind in ('digits', 'commas', 'mixed'):
+            body = {'digits': b'1' * L, 'commas': (b'192.0.2.1,' * (L // 10 + 1))[:L],
+                    'mixed': bytes(rng.choice(b'abcXYZ0189.,;:=_-+/') for _ in range(L))}[kind]
+            term = b'ipv4:' + body
+            rec = b'v=spf1 ' + term + b' -all'
+            sc = W.base_scenario(domains={W.LOCAL: {'alice': None, 'alice/filterconf': b'spfpolicy=2\n'}})
+            sc.zone = list(sc.zone) + ['TXT remote.example ' + rec.hex()]
+            sc.items = [('W',), ('S', b'EHLO client.example\r\n'), ('W',), ('S', b'MAIL FROM:<s@remote.example>\r\n'), ('W',),
+                        ('S', b'RCPT TO:<alice@example.org>\r\n'), ('W',), ('S', b'QUIT\r\n'), ('W',)]
+            scs.append(sc); meta.append(('spfreply %s len=%d' % (kind, L), term))
+    for (case, term), r in zip(meta, session.run_sessions(ctx, b, scs)):
+        ctx.count('spf-reply-sessions')
+        if r.fault:
+            fails.append((case, 'session', 'fails memory-safety-or-crash: ' + r.fault[:200])); continue
+        reply, on = b'', False
+        for kind, val in r.events:
+            if kind == 'R':
+                on = on or b'RCPT TO' in val
+                if on and b'QUIT' in val:
+                    break
+            elif kind == 'W' and on:
+                reply += val
+        lines = reply.split(b'\r\n')[:-1]
+        if not reply.endswith(b'\r\n') or not lines or any(len(l) > 510 or len(l) < 4 or not l[:3].isdigit() or l[3:4] not in (b' ', b'-') or b'\r' in l or b'\n' in l
+                                                          for l in lines) or lines[-1][3:4] != b' ' or any(l[3:4] != b'-' for l in lines[:-1]) or len({l[:3] for l in lines}) != 1:
+            fails.append((case, reply[:300].hex(), 'fails line-shape (code, separator, CRLF or 512 octet limit)'))
+            continue
+        if lines[0][:3] == b'550':
+            ctx.count('spf-reply-rejections')
+            text = b''.join(l[4:] for l in lines).replace(b' ', b'')
+            if term.replace(b' ', b'') not in text:
+                fails.append((case, reply[:300].hex(), 'fails text-complete-in-order (the quoted SPF term is not the term of the record)'))
+    vlib.handle_results(ctx, 'spf-reply', 'reply to RCPT TO quoting DNS text (filters/spf.c) through the whole server', [], fails)
+
+
 def pred(case, impl):
     toks = case.split()
     if not impl.startswith('ok '):
@@ -207,6 +252,7 @@ def run(ctx):
         vlib.differential(ctx, 'net_write_multiline', h, ml,
                           corr_name='model QsmtpModel.Writen.netWriteMultiline vs lib/netio.c:net_write_multiline')
     run_nomail(ctx)
+    run_spfreply(ctx)
     if not ctx.quick():
         vlib.leanchecker(ctx, ['QsmtpModel.Props.C10', 'QsmtpModel.Lemmas.Writen'])
     return vlib.finish(ctx, assumptions=[
